@@ -154,11 +154,22 @@ class Creation:
     """where a timer future comes into being: the function that builds the coroutine value — or, when the body is a named
     async fn, each function that calls it — together with the operands it captures"""
 
-    def __init__(self, api, body, site, caps):
+    def __init__(self, api, body, site, caps, local=None):
         self.api = api      # fn record of the creating function
         self.body = body    # its Body
         self.site = site    # source location
         self.caps = caps    # capture index of the coroutine -> operand in `body`
+        self.local = local  # the local of `body` that receives the future (None if not a plain local)
+
+    def reaches(self, callees):
+        """is the created future handed (through moves, boxing, crate-local pass-through) to one of `callees`?"""
+        from mir import sinks
+        if self.local is None:
+            return None
+        for s in sinks(self.body, self.local):
+            if s["k"] == "call" and ((s["t"].get("callee") in callees) or (s["t"].get("resolved") in callees)):
+                return True
+        return False
 
 
 def creations(fx, co):
@@ -167,6 +178,25 @@ def creations(fx, co):
     if parent is None:
         return out
     pb = Body(parent)
+    if parent["kind"] == "closure":
+        # the future is made by a closure that an API function hands to a private helper which calls it and registers the
+        # result (`self.spawn_self_sending(move |myself| async move { .. })`): seen from the API function with the helper
+        # and the closure inlined, the future is created there, from its parameters and the weak sender the helper made
+        import inline
+        root = fx.fn(parent.get("root") or "")
+        if root is not None and root["kind"] in ("fn", "assoc_fn"):
+            regs_ = set(registrars(fx))
+
+            def helpers_but_registrar(g, t_):
+                return inline.not_public(g, t_) and g["def"] not in regs_
+            rec = inline.inlined(fx, root, helpers_but_registrar)
+            if parent["def"] in rec["inlined_from"]:
+                rb = Body(rec)
+                for _bi, _si, st in agg_sites(rb, ak="coroutine"):
+                    if st["r"]["def"] == co["def"]:
+                        out.append(Creation(root, rb, st.get("l"), dict(enumerate(st["r"]["ops"])), st["p"][0] if len(st["p"]) == 1 else None))
+                if out:
+                    return out
     for _bi, _si, st in agg_sites(pb, ak="coroutine"):
         if st["r"]["def"] != co["def"]:
             continue
@@ -184,9 +214,9 @@ def creations(fx, co):
             if ok:
                 for g, bi, t in graph.all_calls(fx, lambda t: (t.get("resolved") or t.get("callee")) == parent["def"] or t.get("callee") == parent["def"]):
                     gb = Body(g)
-                    out.append(Creation(g, gb, t["l"], {i: t["args"][k - 1] for i, k in argidx.items() if k - 1 < len(t["args"])}))
+                    out.append(Creation(g, gb, t["l"], {i: t["args"][k - 1] for i, k in argidx.items() if k - 1 < len(t["args"])}, t["dest"][0] if len(t["dest"]) == 1 else None))
                 continue
-        out.append(Creation(parent, pb, st.get("l"), dict(enumerate(ops))))
+        out.append(Creation(parent, pb, st.get("l"), dict(enumerate(ops)), st["p"][0] if len(st["p"]) == 1 else None))
     return out
 
 
